@@ -100,6 +100,7 @@ func (r *TaskRunner) Run(t *task.Task) error {
 		r.cancelMutex.RUnlock()
 	}()
 
+	verifAt("runner.run.enter", t)
 	if err := r.ctx.Err(); err != nil {
 		return err
 	}
@@ -174,6 +175,7 @@ func (r *TaskRunner) Run(t *task.Task) error {
 	if err != nil {
 		return err
 	}
+	verifAt("runner.store.before", t)
 	r.storeTaskOutput(t)
 
 	return r.after(r.ctx, t, env, vars)
@@ -186,6 +188,7 @@ func (r *TaskRunner) Cancel() {
 		r.canceling = true
 		defer logrus.Debug("runner has been cancelled")
 		r.cancelFunc()
+		verifAt("runner.cancel.signalled")
 	}
 	r.cancelMutex.Unlock()
 	<-r.doneCh
@@ -218,6 +221,7 @@ func (r *TaskRunner) before(ctx context.Context, t *task.Task, env, vars variabl
 		return err
 	}
 
+	verifAt("runner.before.enter", t)
 	for _, command := range t.Before {
 		job, err := r.compiler.CompileCommand(command, execContext, t.Dir, t.Timeout, nil, r.Stdout, r.Stderr, env, vars)
 		if err != nil {
@@ -353,7 +357,9 @@ func (r *TaskRunner) execute(ctx context.Context, t *task.Task, job *executor.Jo
 		var err error
 		nextJob.Vars.Set("Output", string(prevOutput))
 
+		verifAt("runner.job.before", t, nextJob)
 		prevOutput, err = exec.Execute(ctx, nextJob)
+		verifAt("runner.job.after", t, nextJob, err)
 		if err != nil {
 			logrus.Debug(err.Error())
 			if status, ok := executor.IsExitStatus(err); ok {
